@@ -14,7 +14,7 @@ inductive Err where
   | insufficientGas | dataStackUnderflow | integerOverflow | generic | inputOutOfBounds
   | invalidJumpDest | executionAborted | executionReverted | returnDataOutOfBounds | insufficientBalance
   | dataStackOverflow | unknownAddress | nonExistentAccount | illegalWrite | duplicateAddress
-  | invalidBlockNumber | blockNumberOutOfRange
+  | invalidBlockNumber | blockNumberOutOfRange | invalidContractCode
   deriving DecidableEq, Repr, Inhabited
 
 def Err.name : Err → String
@@ -27,6 +27,7 @@ def Err.name : Err → String
   | .nonExistentAccount => "NonExistentAccount" | .illegalWrite => "IllegalWrite"
   | .duplicateAddress => "DuplicateAddress" | .invalidBlockNumber => "InvalidBlockNumber"
   | .blockNumberOutOfRange => "BlockNumberOutOfRange"
+  | .invalidContractCode => "InvalidContractCode"
 
 structure Log where
   addr : Nat
@@ -39,6 +40,11 @@ structure Account where
   code : ByteArray := .empty
   balance : Nat := 0
   storage : List (Nat × Nat) := []   -- absent = 0
+  /-- acm.Account.ContractMeta, as far as the VM reads it: the code hashes (Keccak-256, as words) of the contracts this
+      contract — or a contract descending from it — may create; empty = no restriction -/
+  allowed : List Nat := []
+  /-- acm.Account.Forebear: the contract at the root of the chain of creations this contract descends from -/
+  forebear : Option Nat := none
 
 /-- the accounts that exist, as one call frame's cache sees them -/
 abbrev World := List Account
@@ -71,6 +77,7 @@ structure Frame where
   retBuf : ByteArray := .empty     -- return data of the last call
   logs : List Log := []            -- newest first; a child frame's logs arrive here only when it succeeded
   refund : Nat := 0
+  seq : Nat := 0                   -- CVM.sequence: CREATE instructions executed so far by this transaction, in any frame (never rolled back)
   bigAlloc : Nat := 0              -- largest `make([]byte, n)` requested before gas was charged
   seen : Nat := 0                  -- bit set of opcodes executed (statistics only)
   dev : Nat := 0                   -- specification mode: the first point where the implementation is known to deviate (0 = none)
@@ -131,6 +138,14 @@ instance : Monad M where
 @[inline] def addLogs (ls : List Log) : M Unit := fun s => ⟨(some (), { s with logs := ls.reverse ++ s.logs }), Inv.refl s⟩
 @[inline] def orSeen (seen dev devs : Nat) : M Unit := fun s =>
   ⟨(some (), { s with seen := s.seen ||| seen, dev := if s.dev == 0 then dev else s.dev, devs := s.devs ||| devs }), Inv.refl s⟩
+
+/-- the CVM's sequence counter after a CREATE or after a callee has returned -/
+@[inline] def setSeq (n : Nat) : M Unit := fun s => ⟨(some (), { s with seq := n }), Inv.refl s⟩
+
+/-- The constructor of a CREATE runs on the creator's own gas (`Gas: params.Gas`, the same `*big.Int`): when it has returned
+    the frame has what the constructor left.  A callee never hands back more than it was given (`C18vm.callee_gas_bounded`),
+    so the `min` changes nothing for the frames of the model; it makes "gas never increases" hold by construction. -/
+@[inline] def leaveGas (n : Nat) : M Unit := fun s => ⟨(some (), { s with gas := min n s.gas }), ⟨Nat.min_le_right _ _, id⟩⟩
 
 /-- subtract an amount the caller has checked to be available (big.Int.Sub on the frame's gas) -/
 @[inline] def takeGas (n : Nat) : M Unit := fun s => ⟨(some (), { s with gas := s.gas - n }), ⟨Nat.sub_le _ _, id⟩⟩
